@@ -62,6 +62,7 @@ type hpeer struct {
 	dead     bool
 	live     bool
 	errored  bool // a handler returned an error: Run returns, only the exit path may follow
+	gotExt   bool // an extended handshake has been received
 	torEvent chan peer.TorEvent
 	o        *peerOracle
 }
@@ -209,7 +210,7 @@ func (w *world) storeOp(kind string, j int) string {
 	return "store " + w.heldStr()
 }
 
-func (w *world) newPeer(fast, info bool, cap int) string {
+func (w *world) newPeer(fast, info bool, cap int, bits int) string {
 	hp := &hpeer{fast: fast, cap: cap, live: true}
 	hp.wdone = make(chan struct{})
 	hp.torEvent = make(chan peer.TorEvent, 4096)
@@ -218,7 +219,7 @@ func (w *world) newPeer(fast, info bool, cap int) string {
 		inf = w.t.Info
 	}
 	hp.p = peer.VerifNewPeer(peer.VerifPeerOpts{
-		Fast: fast, Pieces: &w.t.Pieces, Info: inf, WriterCap: cap,
+		Fast: fast, Extended: bits&1 != 0, Dht: bits&2 != 0, Pieces: &w.t.Pieces, Info: inf, WriterCap: cap,
 		TorEvent: hp.torEvent, TorDone: make(chan struct{}), WriterDone: hp.wdone,
 		Hash: w.t.Hash, Id: w.t.MyId,
 	})
@@ -265,6 +266,10 @@ func errTok(err error) string {
 		return "!dupmeta"
 	case errors.Is(err, peer.ErrRange):
 		return "!range"
+	case errors.Is(err, peer.ErrCannotFast):
+		return "!nofast"
+	case err.Error() == "duplicate Extended0":
+		return "!dupext"
 	}
 	return "!other:" + strings.ReplaceAll(err.Error(), " ", "_")
 }
@@ -373,6 +378,14 @@ func (w *world) peerOp(kind string, e opEnv, m protocol.Message, unch bool, opLi
 		return "errored"
 	}
 	pre := hp.p.VerifState()
+	switch m.(type) {
+	case protocol.Have, protocol.Bitfield, protocol.HaveAll, protocol.HaveNone:
+		// availability before the metadata is C05/C12's subject (and makes
+		// PeerMetadataComplete fail in ways this stream does not model)
+		if !pre.HasInfo {
+			return "bad-op"
+		}
+	}
 	var msgs []protocol.Message
 	var err error
 	var pan string
@@ -545,7 +558,7 @@ func (w *world) tagOf(hp *hpeer, kind string, e opEnv, m protocol.Message, unch 
 			}
 			return "notint-" + t + inner
 		}
-		return "other"
+		return "other" + errTok(err)
 	case "unch":
 		return "unch-" + unchTag(unch, pre.Interested) + errTok(err)
 	case "tick":
@@ -589,12 +602,79 @@ func atoi(s string) (int, bool) {
 	return int(n), err == nil && n >= 0
 }
 
-func parseMsg(f []string) protocol.Message {
+// parseMsg: the remote messages of the C16 stream.  Besides the four the upload path
+// reacts to, "state diversity" messages that must NOT move any of its bounds or decisions:
+// the extended handshake (compact form `Ext0 reqq metadata_size upload_only encrypt port
+// mset`), Have / Bitfield / HaveAll / HaveNone, AllowedFast / Suggest, the remote's own
+// Choke / Unchoke, KeepAlive.  Only well-formed ones are accepted (index below the number
+// of pieces, bitfield of the exact length without spare bits).
+func (w *world) parseMsg(f []string) protocol.Message {
 	u := func(s string) (uint32, bool) {
 		n, err := strconv.ParseUint(s, 10, 32)
 		return uint32(n), err == nil
 	}
+	np := uint32(w.numPieces())
 	switch {
+	case len(f) == 1 && f[0] == "KeepAlive":
+		return protocol.KeepAlive{}
+	case len(f) == 1 && f[0] == "Choke":
+		return protocol.Choke{}
+	case len(f) == 1 && f[0] == "Unchoke":
+		return protocol.Unchoke{}
+	case len(f) == 1 && f[0] == "HaveAll":
+		return protocol.HaveAll{}
+	case len(f) == 1 && f[0] == "HaveNone":
+		return protocol.HaveNone{}
+	case len(f) == 2 && (f[0] == "Have" || f[0] == "AllowedFast" || f[0] == "Suggest"):
+		i, ok := u(f[1])
+		if !ok || i >= np {
+			return nil
+		}
+		switch f[0] {
+		case "Have":
+			return protocol.Have{Index: i}
+		case "AllowedFast":
+			return protocol.AllowedFast{Index: i}
+		}
+		return protocol.SuggestPiece{Index: i}
+	case len(f) == 2 && f[0] == "Bitfield":
+		if f[1] == "-" || len(f[1])%2 != 0 {
+			return nil
+		}
+		for _, c := range f[1] {
+			if !(c >= '0' && c <= '9' || c >= 'a' && c <= 'f') {
+				return nil
+			}
+		}
+		b := vhlib.UnHex(f[1])
+		if uint32(len(b)) != (np+7)/8 {
+			return nil
+		}
+		if np%8 != 0 && b[len(b)-1]&(0xff>>(np%8)) != 0 {
+			return nil
+		}
+		return protocol.Bitfield{Bitfield: b}
+	case len(f) == 7 && f[0] == "Ext0":
+		reqq, ok1 := u(f[1])
+		ms, ok2 := u(f[2])
+		uo, ok3 := u(f[3])
+		enc, ok4 := u(f[4])
+		port, ok5 := u(f[5])
+		mset, ok6 := u(f[6])
+		if !ok1 || !ok2 || !ok3 || !ok4 || !ok5 || !ok6 || uo > 1 || enc > 1 || port > 65535 || mset > 3 {
+			return nil
+		}
+		var ms2 map[string]uint8
+		switch mset {
+		case 1:
+			ms2 = map[string]uint8{}
+		case 2:
+			ms2 = map[string]uint8{"ut_pex": 1, "ut_metadata": 2}
+		case 3:
+			ms2 = map[string]uint8{"ut_pex": 1, "ut_metadata": 2, "lt_donthave": 7, "upload_only": 3}
+		}
+		return protocol.Extended0{Version: "c16", Port: uint16(port), ReqQ: reqq, MetadataSize: ms,
+			Messages: ms2, UploadOnly: uo == 1, Encrypt: enc == 1}
 	case len(f) == 1 && f[0] == "Interested":
 		return protocol.Interested{}
 	case len(f) == 1 && f[0] == "NotInterested":
@@ -698,12 +778,16 @@ func (w *world) exec(line string) {
 				w.c.Violate("panic:tick:huge-piece-length", pan, []string{line})
 			}
 		}
-	case f[0] == "peer" && len(f) == 4:
+	case f[0] == "peer" && (len(f) == 4 || len(f) == 5):
 		fast, ok1 := atoi(f[1])
 		info, ok2 := atoi(f[2])
 		cp, ok3 := atoi(f[3])
-		if ok1 && ok2 && ok3 && fast <= 1 && info <= 1 && (cp == 0 || cp == 64) && len(w.peers) < 8 {
-			obs = w.newPeer(fast == 1, info == 1, cp)
+		bits, ok4 := 0, true
+		if len(f) == 5 { // reserved bits of the handshake: 1 = Extended, 2 = DHT
+			bits, ok4 = atoi(f[4])
+		}
+		if ok1 && ok2 && ok3 && ok4 && fast <= 1 && info <= 1 && bits <= 3 && (cp == 0 || cp == 64) && len(w.peers) < 8 {
+			obs = w.newPeer(fast == 1, info == 1, cp, bits)
 		}
 	case f[0] == "store" && len(f) == 3:
 		if j, ok := atoi(f[2]); ok {
@@ -713,7 +797,7 @@ func (w *world) exec(line string) {
 		k, ok1 := atoi(f[1])
 		free, ok2 := atoi(f[2])
 		dead, ok3 := atoi(f[3])
-		m := parseMsg(f[4:])
+		m := w.parseMsg(f[4:])
 		if ok1 && ok2 && ok3 && dead <= 1 && free <= 1000 && m != nil {
 			e := w.normEnv(opEnv{k: k, free: free, dead: dead == 1}, false)
 			line = fmt.Sprintf("msg %d %d %s %s", k, free, b01(e.dead), strings.Join(f[4:], " "))
